@@ -61,7 +61,7 @@ func ruleR19_1(p *Program, r *Report) {
 }
 
 func ruleR19_2(p *Program, r *Report) {
-	r.Expect("R19.2", 5)
+	r.Expect("R19.2", 3) // the portable finder may be reached through a forwarding helper
 	nd := p.Func(deflRel, "NewDynCompressor")
 	bl := p.Func(deflRel, "buildLZ77")
 	lz := p.Func(deflRel, "lz77")
